@@ -70,12 +70,18 @@ def arg_dtype(fn, wcm, dtype, W=None):
                          structural=what in ("threshold_proportional", "threshold_absolute", "binarize"))
 
 
+_COPY_FORM = ["py"]
+
+
 def _one_call(rec, f, W, den, args, copy, enc_out, variant=rc.PLAIN):
     """one real call on a fresh array; appends the observations to rec; returns the result.
     variant: the same values as another argument dtype (only den = 1: integers) / memory layout"""
     arg = rc.as_variant(np.array(W, dtype=float) / den, variant[0], variant[1])
     before = arg.copy()
-    out = f(arg, *args, copy=bool(copy))
+    # the flag as the caller holds it (seed round 7): a Python bool, a numpy bool (`mask.any()`), an
+    # int, a 0-d boolean array - all of them mean the same to `if copy:`
+    flag = {"py": bool, "np": np.bool_, "int": int, "zerod": lambda c: np.array(bool(c))}[_COPY_FORM[0]](bool(copy))
+    out = f(arg, *args, copy=flag)
     rec["arg_unchanged"].append(int(before.shape == arg.shape and before.tobytes() == arg.tobytes()))
     rec["result_is_arg"].append(int(out is arg))
     rec["outs"].append(enc_out(out))
@@ -105,6 +111,7 @@ def exec_job(job):
     import bct
     from bct.utils.miscellaneous_utilities import teachers_round
     fn, W, den, copy = job["fn"], job["W"], job.get("den", 1), job.get("copy", 1)
+    _COPY_FORM[0] = job.get("copy_form", "py")
     var = (job.get("dtype", "float64"), job.get("layout", "C"))
     rec = _blank(job)
     rc.as_variant(np.array(W, dtype=float) / den, *var)      # lossy cast = harness fault, not "raised"
@@ -392,6 +399,10 @@ def run(ctx):
     for cfg in models:
         ctx.mc("MC_Threshold.tla", cfg)
     jobs = build_jobs(ctx)
+    frng = random.Random(ctx.seed * 17 + 5)
+    for j in jobs:                       # the form of the copy flag: an independent draw per job
+        if frng.random() < 0.4:
+            j["copy_form"] = frng.choice(["np", "int", "zerod"])
     recs = [_fill(j, r) for j, r in zip(jobs, pool.run_jobs(__name__, jobs, strict_fp=True))]
     verdicts = ctx.validate(*TRACE, recs, chunk=3000 if ctx.quick else 8000)
     ctx.judge(jobs, rc.tag_failures(ctx, jobs, recs, verdicts), verdicts, what)
